@@ -14,6 +14,7 @@ fn main() {
         "theta-record" => vh::fam_theta::record(&args),
         "fi-record" => vh::fam_fi::record(&args),
         "cm-record" => vh::fam_cm::record(&args),
+        "bloom-record" => vh::fam_bloom::record(&args),
         "hllu-record" => vh::fam_hll::record_union(&args),
         c => {
             eprintln!("unknown command {c}");
